@@ -396,6 +396,19 @@ def flag_bit_rule(chk, ctx):
              'value is (first flag word & reference mask) != 0')
     d = H.decode(ctx)
     it = d['interp']
+    # the fixed part: class id, weight (deprecated, never sent non-zero by
+    # the library itself) and body size are what the wire carries
+    from .c02 import fixed_part_reads
+    chk.rule('C05.H', 'the content header\'s class id, weight and body '
+             'size are the unsigned big-endian reads of payload octets '
+             '0-1, 2-3 and 4-11')
+    for o, ob in d['rets']:
+        okf, det = fixed_part_reads(ob, d['data'])
+        chk.ob('C05.H', 'content header fixed part', okf,
+               'reads %r' % (det,), site='pamqp/header.py')
+    if not d['rets']:
+        chk.undecide('C05.H', 'content header fixed part',
+                     'no return of frame.unmarshal produces a ContentHeader')
     done = set()
     for o, ob in d['rets']:
         p = ob.attrs.get('properties')
@@ -450,6 +463,13 @@ def classify_guard(g):
     while isinstance(a, Sym) and a.op == 'not':
         a = a.args[0]
     if isinstance(a, Sym):
+        if a.op in ('or', 'and'):
+            # (e.g. table.get(tag) is None: "tag not in table or the entry
+            # is None") -- structural when every part is
+            parts = [classify_guard(x) for x in a.args]
+            if all(ok for ok, _ in parts):
+                return True, ' / '.join(sorted({w for _, w in parts}))
+            return False, next(w for ok, w in parts if not ok)
         if a.op in ('is', 'isnot') and a.args[1] is None:
             return True, 'dispatch-table lookup found nothing'
         if a.op in ('in', 'notin') and isinstance(a.args[1], T.Ref):
